@@ -243,7 +243,7 @@ def run(chk):
         # what must not be left to chance in a short run: state derivatives where the loads depend on the position (standard atmosphere; a
         # second aircraft), the union and its selection with two aircraft
         rnd = i // len(kinds)
-        force_multi = True if (kind == "union" and rnd == 0) or (kind == "state" and rnd == 1) else None
+        force_multi = True if (kind == "union" and rnd == 0) or (kind == "state" and rnd == 1) else (False if (kind == "state" and rnd == 0) else None)
         force_rho = "standard" if (kind == "state" and rnd == 0) else None
         sd, acs, frames = gen_case(chk, MX, force_multi=force_multi, force_rho=force_rho)
         name = rng.choice([a[0] for a in acs])
